@@ -4,7 +4,7 @@
    is fed by both), processing them in the other order gives the SAME two compiled children, the same later children up
    to the listing of their inputs dictionaries (which InputsOrderFacts shows to be immaterial), and an equivalent map. *)
 From Coq Require Import List String Bool Permutation.
-From Bq Require Import Expr ExprFacts RepModel Routine Compare Compile CompileFacts StructureFacts WireFacts InputsOrderFacts.
+From Bq Require Import Expr ExprFacts RepModel Routine Compare Compile CompileFacts StructureFacts WireFacts TopoFacts InputsOrderFacts.
 Import ListNotations.
 Open Scope string_scope.
 
@@ -471,4 +471,119 @@ Proof.
   intros Hev fuel conns names names' Ro children pm acc pm1 kids H.
   eapply compile_children_reorder; [|exact Ro|apply pm_rel_refl|exact H].
   intros c ins ins' t S Hc. eapply go_sim; eassumption.
+Qed.
+
+(* ---------- every two topological processing orders are connected by such swaps ---------- *)
+(* an order in which no child is fed by a later one *)
+Fixpoint ordered (conns : list (endpoint * endpoint)) (l : list string) : Prop :=
+  match l with
+  | [] => True
+  | x :: t => (forall y, In y t -> no_wire conns y x) /\ ordered conns t
+  end.
+
+Lemma ordered_app_inv conns pre x post : ordered conns (pre ++ x :: post) ->
+  (forall y, In y pre -> no_wire conns x y) /\ ordered conns (pre ++ post).
+Proof.
+  induction pre as [|p pre IH]; cbn [app ordered].
+  - intros [_ H]. split; [intros y []|exact H].
+  - intros [Hp H]. destruct (IH H) as [H1 H2]. split.
+    + intros y [E|Hy]; [subst y; apply Hp; apply in_or_app; right; left; reflexivity|apply H1; exact Hy].
+    + split; [|exact H2]. intros y Hy. apply Hp. apply in_app_or in Hy. apply in_or_app. destruct Hy; [left; assumption|right; right; assumption].
+Qed.
+
+Lemma reorder_cons conns x l l' : reorder conns l l' -> reorder conns (x :: l) (x :: l').
+Proof.
+  induction 1 as [l|pre a b post Nab Nba Ap|l1 l2 l3 _ IH1 _ IH2].
+  - apply ro_refl.
+  - apply (ro_swap conns (x :: pre) a b post); assumption.
+  - eapply ro_trans; eassumption.
+Qed.
+
+(* an element that is independent of everything before it can be moved to the front *)
+Lemma reorder_bubble conns x : forall pre post,
+  (forall y, In y pre -> no_wire conns y x /\ no_wire conns x y /\ targets_apart conns y x) ->
+  reorder conns (pre ++ x :: post) (x :: pre ++ post).
+Proof.
+  intro pre. induction pre as [|y p IH] using rev_ind; intros post H.
+  - apply ro_refl.
+  - assert (Hy : In y (p ++ [y])) by (apply in_or_app; right; left; reflexivity).
+    destruct (H y Hy) as (N1 & N2 & A).
+    replace ((p ++ [y]) ++ x :: post)%list with (p ++ y :: x :: post)%list by (rewrite <- app_assoc; reflexivity).
+    replace (x :: (p ++ [y]) ++ post)%list with (x :: p ++ y :: post)%list by (rewrite <- app_assoc; reflexivity).
+    eapply ro_trans; [apply (ro_swap conns p y x post); assumption|].
+    apply (IH (y :: post)). intros z Hz. apply H. apply in_or_app. left. exact Hz.
+Qed.
+
+Theorem topological_orders_connected conns : forall l' l,
+  (forall a b, a <> b -> targets_apart conns a b) ->
+  NoDup l -> Permutation l l' -> ordered conns l -> ordered conns l' -> reorder conns l l'.
+Proof.
+  induction l' as [|x t' IH]; intros l Apart ND P O O'.
+  - apply Permutation_sym, Permutation_nil in P. subst. apply ro_refl.
+  - assert (Hx : In x l) by (eapply Permutation_in; [apply Permutation_sym; exact P|left; reflexivity]).
+    destruct (in_split _ _ Hx) as [pre [post E]]. subst l.
+    destruct (ordered_app_inv _ _ _ _ O) as [O1 O2]. destruct O' as [Ox Ot].
+    assert (P' : Permutation (pre ++ post) t') by (apply Permutation_sym; apply Permutation_cons_app_inv with (a := x); apply Permutation_sym; exact P).
+    assert (ND' : NoDup (pre ++ post)) by (eapply NoDup_remove_1; exact ND).
+    assert (Nx : ~ In x (pre ++ post)) by (eapply NoDup_remove_2; exact ND).
+    eapply ro_trans.
+    + apply reorder_bubble. intros y Hy.
+      assert (Hne : y <> x) by (intro; subst; apply Nx; apply in_or_app; left; exact Hy).
+      split; [|split; [apply O1; exact Hy|apply Apart; exact Hne]].
+      apply Ox. eapply Permutation_in; [exact P'|apply in_or_app; left; exact Hy].
+    + apply reorder_cons. apply IH; assumption.
+Qed.
+
+(* the order the compiler processes the children in (Kahn's algorithm over the listed children) is such an order *)
+Lemma wire_is_pred conns y x sp tp : In (sp, (Some x, tp)) (conns_from (Some y) conns) -> In y (child_preds conns x).
+Proof.
+  unfold conns_from, child_preds. intro H. apply in_flat_map in H. destruct H as [[[s sp'] t] [Hin H]].
+  destruct s as [a|]; [|destruct H]. destruct (String.eqb a y) eqn:E; [|destruct H]. apply String.eqb_eq in E. subst a.
+  destruct H as [H|[]]. inversion H; subst. apply in_flat_map. exists ((Some y, sp), (Some x, tp)). split; [exact Hin|].
+  rewrite String.eqb_refl. left. reflexivity.
+Qed.
+
+Lemma ordered_of_splits conns l :
+  (forall l1 x l2, l = (l1 ++ x :: l2)%list -> forall y, In y l2 -> no_wire conns y x) -> ordered conns l.
+Proof.
+  induction l as [|x t IH]; intro H; cbn [ordered]; [exact I|]. split.
+  - intros y Hy. apply (H [] x t eq_refl y Hy).
+  - apply IH. intros l1 z l2 E y Hy. apply (H (x :: l1) z l2); [rewrite E; reflexivity|exact Hy].
+Qed.
+
+Theorem children_order_ordered children conns order :
+  NoDup (map rname children) -> children_order children conns = Some order -> ordered conns order /\ NoDup order.
+Proof.
+  intros ND H. destruct (TopoFacts.children_order_topological _ _ _ ND H) as [P T].
+  assert (NDo : NoDup order) by (eapply Permutation_NoDup; [apply Permutation_sym; exact P|exact ND]).
+  split; [|exact NDo]. apply ordered_of_splits. intros l1 x l2 E y Hy sp tp Hw.
+  pose proof (T l1 x l2 E y (wire_is_pred _ _ _ _ _ Hw)) as Hin.
+  subst order. clear - NDo Hin Hy. induction l1 as [|a l1 IH]; [destruct Hin|].
+  cbn [app] in NDo. inversion NDo as [|? ? Hn Hd]; subst. destruct Hin as [E|Hin].
+  - subst a. apply Hn. apply in_or_app. right. right. exact Hy.
+  - apply IH; assumption.
+Qed.
+
+(* C09, children: however the children are LISTED, the order the compiler processes them in gives the same compiled
+   children (as a multiset, up to the listing of their stored inputs) and an equivalent parameter map *)
+Theorem children_listing_free (D : Type) (ev : list (string * D) -> expr -> result D) (statusD : D -> D -> cstatus) (fvD : D -> list string) :
+  (forall env env' e, (forall k, lookup k env = lookup k env') -> ev env e = ev env' e) ->
+  forall fuel children children' conns order order',
+    Permutation children children' -> NoDup (map rname children) ->
+    (forall a b, a <> b -> targets_apart conns a b) ->
+    children_order children conns = Some order -> children_order children' conns = Some order' ->
+    reorder conns order order' /\
+    forall chs pm acc pm1 kids,
+      compile_children (go ev statusD fvD fuel) order chs conns pm acc = Ok (pm1, kids) ->
+      exists pm2 kids2, compile_children (go ev statusD fvD fuel) order' chs conns pm acc = Ok (pm2, kids2)
+                        /\ pm_rel D pm1 pm2 /\ kids_equiv D kids kids2.
+Proof.
+  intros Hev fuel children children' conns order order' P ND Apart H H'.
+  assert (ND' : NoDup (map rname children')) by (eapply Permutation_NoDup; [apply Permutation_map; exact P|exact ND]).
+  destruct (children_order_ordered _ _ _ ND H) as [O NDo]. destruct (children_order_ordered _ _ _ ND' H') as [O' _].
+  destruct (TopoFacts.children_order_topological _ _ _ ND H) as [P1 _]. destruct (TopoFacts.children_order_topological _ _ _ ND' H') as [P2 _].
+  assert (Po : Permutation order order').
+  { eapply Permutation_trans; [exact P1|]. eapply Permutation_trans; [apply Permutation_map; exact P|apply Permutation_sym; exact P2]. }
+  assert (Ro : reorder conns order order') by (apply topological_orders_connected; assumption).
+  split; [exact Ro|]. intros chs pm acc pm1 kids Hc. eapply go_children_reorder; eassumption.
 Qed.
